@@ -69,12 +69,16 @@ def run(ctx):
     if exe is None or exe12 is None:
         return
     tm["coq_props+build"] = round(time.time() - t0, 1); t0 = time.time()
-    rc, out, err = ctx.run(exe, "", args=["1", "73" if quick else "421"])
+    s0, s1 = 1, (73 if quick else 421)
+    rp = getattr(ctx, "replay", None)
+    if rp and isinstance(rp.get("case"), dict) and isinstance(rp["case"].get("replay"), dict):
+        s0 = int(rp["case"]["replay"]["seed"]); s1 = s0 + 1      # --replay: only the recorded model
+    rc, out, err = ctx.run(exe, "", args=[str(s0), str(s1)])
     if rc != 0:
         ctx.broken.append(("correspondence", "driver c11_forces failed", "rc=%s %s" % (rc, err[-500:])))
         return
     recs = parse_records(out)
-    if len(recs) < 20:
+    if len(recs) < 20 and s1 - s0 > 1:
         ctx.broken.append(("correspondence", "driver c11_forces produced too few records", out[-300:]))
         return
     tm["mj_forward runs"] = round(time.time() - t0, 1); t0 = time.time()
